@@ -30,8 +30,8 @@ LEVEL = "model_checking"
 
 SIGNS = {"hebbian": (1.0, -1.0), "anti": (-1.0, 1.0), "pot": (1.0, 1.0), "dep": (-1.0, -1.0)}
 LRP, LRN, TCP, TCN = 0.5, 0.25, 4.0, 2.0
-WEIGHT_RULES = ("da-stdp", "da-kernel", "kernel", "da-mstdp")
-DELAY_RULES = ("da-stdpd", "da-kerneld", "da-mstdpd")
+WEIGHT_RULES = ("da-stdp", "da-kernel", "kernel", "da-mstdp", "da-kernel-t", "kernel-t")
+DELAY_RULES = ("da-stdpd", "da-kerneld", "da-mstdpd", "da-kerneld-t")
 
 
 def make(rule, sign, reduction=identity_reduction):
@@ -49,6 +49,15 @@ def make(rule, sign, reduction=identity_reduction):
         return KernelSTDP(exp_stdp_post_kernel, exp_stdp_pre_kernel, kp, kn, delayed=True, batch_reduction=reduction)
     if rule == "da-kernel":
         return DelayAdjustedKernelSTDP(exp_stdp_post_kernel, exp_stdp_pre_kernel, kp, kn, batch_reduction=reduction)
+    if rule in ("da-kernel-t", "da-kerneld-t", "kernel-t"):
+        # kernel keyword arguments given as tensors (documented: they are unpacked into per-cell buffers)
+        kpt = {k: torch.tensor(v) for k, v in kp.items()}
+        knt = {k: torch.tensor(v) for k, v in kn.items()}
+        if rule == "da-kernel-t":
+            return DelayAdjustedKernelSTDP(exp_stdp_post_kernel, exp_stdp_pre_kernel, kpt, knt, batch_reduction=reduction)
+        if rule == "kernel-t":
+            return KernelSTDP(exp_stdp_post_kernel, exp_stdp_pre_kernel, kpt, knt, delayed=False, batch_reduction=reduction)
+        return DelayAdjustedKernelSTDPD(exp_stdp_post_kernel, exp_stdp_pre_kernel, knt, kpt, batch_reduction=reduction)
     if rule == "da-kerneld":
         # delay rule: the causal branch uses (lr_neg, tc_neg), the anti-causal branch (lr_pos, tc_pos) - see DelayAdjustedSTDPD
         return DelayAdjustedKernelSTDPD(exp_stdp_post_kernel, exp_stdp_pre_kernel, kn, kp, batch_reduction=reduction)
@@ -63,6 +72,7 @@ def reference(rule, sign, dt, pre_syn, post, Ks, signals, gamma, parts=False):
     """pre_syn (T,B,N,L), post (T,B,F,L) bool; Ks list of (F,N) delays in TIME per step; -> (T,B,F,N) signed update of step t"""
     sp, sn = SIGNS[sign]
     lp, ln = sp * LRP, sn * LRN
+    rule = {"da-kernel-t": "da-kernel", "da-kerneld-t": "da-kerneld", "kernel-t": "kernel"}.get(rule, rule)
     T, B, N, L = pre_syn.shape
     Fn = post.shape[2]
     out = torch.zeros(T, B, Fn, N, dtype=F64)
@@ -274,6 +284,59 @@ def applied_shard(rule, sign, dt):
     return tally
 
 
+def multicell_shard(rule, sign, T):
+    """one trainer, TWO cells with different histories, per-sample signal TENSOR (batch of one) and scale != 1:
+    every cell's update must equal its own single-cell formula (no carry-over between cells)"""
+    tally = Tally()
+    spec = Cellspec("dense", 1, 1)
+    dt = 1.0
+    hs = all_histories(T, 2)
+    param = "delay" if rule in DELAY_RULES else "weight"
+    three = rule in ("da-mstdp", "da-mstdpd")
+    gamma = 0.5
+    for h in hs:
+        hists = [h, [tuple(1 - v for v in letter) for letter in h][::-1]]
+        case = {"rule": rule, "sign": sign, "part": "two cells on one trainer", "histories": hists, "signal": "tensor" if three else None, "scale": gamma}
+        tally.add("evaluations")
+        layers = [spec.build(dt, 1, 2 * dt, torch.tensor([[0.5 * dt * (i + 1)]])) for i in range(2)]
+        tr = make(rule, sign, None)
+        for i, L_ in enumerate(layers):
+            tr.register_cell(f"c{i}", L_.cell)
+        sig = [(-0.5 if u % 2 else 1.0) for u in range(T)]
+        Ks = [[], []]
+        ok = True
+        for t in range(T):
+            for i, L_ in enumerate(layers):
+                Ks[i].append(L_.connection.delay.detach().clone().to(F64))
+                L_(spec.pre_tensor([hists[i][t][:1]]), neuron_kwargs={"override": spec.post_tensor([hists[i][t][1:]])})
+            try:
+                if three:
+                    tr(torch.tensor([sig[t]]), gamma)
+                else:
+                    tr()
+            except Exception as ex:
+                tally.violation(f"exception:multicell:{rule}:{type(ex).__name__}", {**case, "step": t}, repr(ex))
+                ok = False
+                break
+            for i, L_ in enumerate(layers):
+                pre_syn = torch.stack([spec.pre_syn([hists[i][u][:1]]) for u in range(t + 1)], 0)
+                post = torch.stack([spec.post_ref([hists[i][u][1:]]) for u in range(t + 1)], 0)
+                ref = reference(rule, sign, dt, pre_syn, post, Ks[i], sig, gamma)
+                acc = getattr(L_.connection.updater, param)
+                z = torch.zeros(spec.wshape, dtype=F64)
+                got = (z if acc.pos is None else acc.pos.to(F64)) - (z if acc.neg is None else acc.neg.to(F64))
+                exp = ref.sum(0)[0]
+                if not torch.allclose(got, exp, atol=1e-5):
+                    tally.violation(f"multicell:{rule}:cell{i}", {**case, "step": t, "cell": i}, f"cell {i} accumulated {got.reshape(-1).tolist()} but its own history "
+                                    f"gives {exp.reshape(-1).tolist()}", exp.tolist(), got.tolist())
+                    ok = False
+            if not ok:
+                break
+        tally.mark("nontrivial", ("multicell", rule, sign, tuple(map(tuple, h))))
+    tally.sample({"part": "multicell", "rule": rule, "sign": sign, "T": T})
+    return tally
+
+
 def run(rep):
     quick = rep.tier == "quick"
     T1 = 4 if quick else 5
@@ -291,6 +354,12 @@ def run(rep):
                 jobs.append((shard, (rule, conn, nio, T2, 1.0, sign, "const")))
         for sign in ("hebbian", "dep"):
             jobs.append((applied_shard, (rule, sign, 1.0)))
+            jobs.append((multicell_shard, (rule, sign, 3 if quick else 4)))
+    # kernel keyword arguments passed as tensors
+    for rule in ("da-kernel-t", "da-kerneld-t"):
+        for sign in ("hebbian", "anti"):
+            jobs.append((shard, (rule, "dense", (1, 1), T1 - 1, 1.0, sign, "const")))
+            jobs.append((shard, (rule, "dense", (2, 2), T2, 1.0, sign, "const")))
     tally = run_shards(jobs, seed=rep.seed)
     rep.tally.merge(tally)
     c = tally.counts
